@@ -278,4 +278,10 @@ class AggregatedInit:
         exclusion_is_extreme_times_count="self.power_bounds.exclusion_upper == max(b.power_exclusion_upper_bound for b in batteries) * 2"
                                          " and self.power_bounds.exclusion_lower == min(b.power_exclusion_lower_bound for b in batteries) * 2",
         capacity_is_sum="self.capacity == sum(b.capacity for b in batteries)",
+        # C02 ("a group at or beyond its SoC limit gets nothing" is decided on these): the group's state of charge and
+        # its limits are the capacity-weighted means of the batteries' raw values
+        soc_is_capacity_weighted_mean="implies(self.capacity != 0,"
+                                      " self.soc == sum(b.soc * b.capacity for b in batteries) / self.capacity"
+                                      " and self.soc_upper_bound == sum(b.soc_upper_bound * b.capacity for b in batteries) / self.capacity"
+                                      " and self.soc_lower_bound == sum(b.soc_lower_bound * b.capacity for b in batteries) / self.capacity)",
     )
